@@ -149,8 +149,13 @@ def writeAll (hdr : Bytes) (dump : List Row → Bytes) (plainAppend : Bool) : WS
     let r := writeStep hdr dump plainAppend st t
     r.1 ++ writeAll hdr dump plainAppend r.2 ts
 
-/-- `write(stream)`: empty chunks are skipped before anything else happens -/
+/-- `write(stream)` (repaired): every chunk, empty ones included, goes through `write` -/
 def writeStream (hdr : Bytes) (dump : List Row → Bytes) (plainAppend : Bool) (st : WState) (ts : List (List Row)) : Bytes :=
+  writeAll hdr dump plainAppend st ts
+
+/-- as shipped: empty chunks were skipped before anything else happened, so a stream of empty chunks wrote no
+header at all -/
+def writeStreamOld (hdr : Bytes) (dump : List Row → Bytes) (plainAppend : Bool) (st : WState) (ts : List (List Row)) : Bytes :=
   writeAll hdr dump plainAppend st (ts.filter (· ≠ []))
 
 /-- one writer: opened for writing (truncates) or appending, fed by successive `write` calls or by one stream -/
@@ -174,15 +179,15 @@ def runAll (hdr : Bytes) (dump : List Row → Bytes) : Bytes → List Sess → B
 def runSessOld (hdr : Bytes) (dump : List Row → Bytes) (gz : Bool) (acc : Bytes) (s : Sess) : Bytes :=
   let base := if s.mode = Mode.write then [] else acc
   let pa := s.mode == Mode.append && !gz
-  base ++ (if s.stream then writeStream hdr dump pa (initStateOld s.mode) s.pieces
+  base ++ (if s.stream then writeStreamOld hdr dump pa (initStateOld s.mode) s.pieces
            else writeAll hdr dump pa (initStateOld s.mode) s.pieces)
 
 def runAllOld (hdr : Bytes) (dump : List Row → Bytes) (gz : Bool) : Bytes → List Sess → Bytes
   | acc, [] => acc
   | acc, s :: ss => runAllOld hdr dump gz (runSessOld hdr dump gz acc s) ss
 
-/-- the `write` calls a session really makes (a stream skips its empty chunks) -/
-def Sess.calls (s : Sess) : List (List Row) := if s.stream then s.pieces.filter (· ≠ []) else s.pieces
+/-- the `write` calls a session makes: one per table / chunk handed to it -/
+def Sess.calls (s : Sess) : List (List Row) := s.pieces
 
 /-- cut a table at the given positions -/
 def cutAt {α} (rows : List α) : Nat → List Nat → List (List α)
